@@ -169,6 +169,7 @@ func NewSys(plan *Plan) *Sys {
 	for _, t := range plan.Knobs.Targets {
 		s.Topo.AddTarget(t, ModelName, ModelVersion, plan.Knobs.Persistent[t])
 		d := NewDevice(k, t, s.Eff)
+		d.Shared = plan.Knobs.SharedChannel
 		if plan.Knobs.RejectDev {
 			d.RejectValue = DevRejectValue
 		}
